@@ -234,6 +234,11 @@ contract("CLexer._handle_pppragma#body", variant_of="CLexer._handle_pppragma", f
                   # PPPRAGMA sits on the word `pragma`, stamped with the line of the directive and its exact column
                   "implies(len(result) >= 1, result[0].type == 'PPPRAGMA' and result[0].value == 'pragma' and "
                   "result[0].lineno == old(self._lineno) and result[0].column >= old(self._pos) - old(self._line_start) + 1)",
+                  # ... exactly: the token starts at the word `pragma`, and only blanks lie between the old position and it
+                  "implies(len(result) >= 1, substr(self._lexdata, result[0].column - 1 + old(self._line_start), "
+                  "result[0].column - 1 + old(self._line_start) + 6) == 'pragma' and "
+                  "forall(lambda i: implies(old(self._pos) <= i and i < result[0].column - 1 + old(self._line_start), "
+                  "char_at(self._lexdata, i) == ' ' or char_at(self._lexdata, i) == '\\t')))",
                   # PPPRAGMASTR is the rest of the line, verbatim, without leading blanks and without the newline
                   "implies(len(result) == 2, result[1].type == 'PPPRAGMASTR' and len(result[1].value) >= 1 and "
                   "result[1].lineno == old(self._lineno) and "
